@@ -11,6 +11,7 @@ import (
 	"github.com/ipfs/go-cid"
 	"github.com/ipld/go-storethehash/store/primary"
 	"github.com/ipld/go-storethehash/store/types"
+	"github.com/ipld/go-storethehash/store/vhook"
 	"github.com/multiformats/go-multihash"
 )
 
@@ -91,6 +92,7 @@ func (cp *CIDPrimary) Get(blk types.Block) ([]byte, []byte, error) {
 	if key != nil && value != nil {
 		return key, value, nil
 	}
+	vhook.At("cid.get.after-cache")
 	read := make([]byte, CIDSizePrefix+int(blk.Size))
 	if _, err = cp.file.ReadAt(read, int64(blk.Offset)); err != nil {
 		return nil, nil, fmt.Errorf("error reading data from cid primary: %w", err)
@@ -181,6 +183,7 @@ func (cp *CIDPrimary) Flush() (types.Work, error) {
 	cp.nextPool = newBlockPool()
 	cp.outstandingWork = 0
 	cp.poolLk.Unlock()
+	vhook.At("cid.flush.swapped")
 
 	var work types.Work
 	for _, record := range cp.curPool.blocks {
@@ -190,11 +193,13 @@ func (cp *CIDPrimary) Flush() (types.Work, error) {
 		}
 		work += blockWork
 	}
+	vhook.At("cid.flush.before-write")
 	err := cp.writer.Flush()
 	if err != nil {
 		return 0, fmt.Errorf("cannot flush data to primary file %s: %w", cp.file.Name(), err)
 	}
 
+	vhook.At("cid.flush.written")
 	return work, nil
 }
 
